@@ -229,6 +229,27 @@ ADD = {
 for _id, _t in ADD.items():
     P[_id]["text"] += " " + _t
 
+# clauses added by seed round e
+ADD2 = {
+ "C01": "A function that calls itself passes on different arguments than it received (a recursion that descends on nothing ends only through outside state a client may be able to pin; rule no-unconditional-recursion).",
+ "C02": "The switch that guards ARP handling in the receive loop is unexported and never written (the configuration decoder cannot set it); if it can become true the ARP parser is analysed like the others (rule arp-unreachable-premise).",
+ "C03": "Datagram connections built in a receive loop own their bytes (shared with C04) and an object taken from a sync.Pool has every field assigned again before use (rule pooled-object-reset).",
+ "C04": "A handler that serves several HTTP requests from one buffered reader consumes each request body to its end (or closes it, not deferred) before the next ReadRequest (rule request-body-consumed).",
+ "C05": "The bytes json.Marshal produced for a snapshot reach the sink unmodified: not passed to bytes/strings/regexp rewriting functions, re-sliced or patched (rule serialised-bytes-unmodified).",
+ "C06": "RegexFilterFunc hands back the closure it built in that very call (no memoised filter; clause of regex-any-of).",
+ "C07": "The writer goroutine waits only in its select on the request channel; a bare receive from a reused timer is accepted only where a typestate analysis (live/dead over NewTimer, Reset, Stop results, receives) shows the timer cannot be dead (clause of sender-never-blocks).",
+ "C09": "Closing the FTP session releases the control connection and the data socket on every path and is deferred in Serve; a new data socket is stored only after the one already held was closed; a listener opened for a connection is given a deadline; a Read in a handler loop is never handed a possibly empty buffer (zone prover; the forked TLS record reader is excepted with its invariant) (rules owner-close-releases-all, owner-close-deferred, data-socket-replaced-released, listener-accept-bounded, read-buffer-not-empty).",
+ "C12": "The FTP session object that holds the login is made for the connection; one taken from a sync.Pool has every field assigned again (rule session-object-fresh).",
+ "C13": "A received hello is parsed into a fresh clientHelloMsg; a pooled one must have every field reset (rule hello-message-fresh).",
+ "C14": "In listener/canary no left shift is performed on a narrow integer and widened afterwards (packed look-up keys keep every address bit; rule no-shift-before-widening).",
+ "C17": "Every copy() in the decoder/encoder package is proved to take its whole source (len(src) <= len(dst); zone prover with exact lengths of make/slice expressions; rule encoder-writes-whole-value).",
+ "C18": "An identity getter, and its direct callers, do not park the loaded identity in package-level state (clause of identity-getter).",
+ "C19": "compareAddr's accepting arms (same kind, equal ports, IPs equal or one side unset, either side) are decided as in C08 (rule compare-addr).",
+ "C20": "A group is reported only when quiet: the detector's report arm waits on a time.After re-armed by every iteration, or every report is behind the group's inactivity test (rule report-only-when-quiet).",
+}
+for _id, _t in ADD2.items():
+    P[_id]["text"] += " " + _t
+
 PENDING = {
 }
 
